@@ -121,3 +121,58 @@ def python_refactor(root):
 
 VARIANTS = [('shift_lines', shift_lines), ('reformat', reformat), ('rename_locals', rename_locals), ('extract_temporaries', extract_temporaries),
             ('swap_commutative', swap_commutative), ('reorder_independent', reorder_independent), ('python_refactor', python_refactor)]
+
+
+# ---------------------------------------------------------------- rename every local of one file
+CONVENTIONAL = {'r', 'sim', 'particles', 'p', 'N', 'G'}     # naming conventions of REBOUND the rules rely on (stated in DESIGN.md §7)
+
+
+def _rename_all_locals(cfile):
+    def fn(root):
+        import sys
+        sys.path.insert(0, os.path.dirname(os.path.dirname(os.path.abspath(__file__))))
+        from rebverif import cfront
+        tus = cfront.load_tus()
+        tu = tus[cfile]
+        reserved = set()
+        for t in tus.values():
+            reserved |= set(t.funcs) | set(t.protos) | set(t.globals) | set(t.enums)
+            for rec in t.records.values():
+                reserved |= {f['name'] for f in rec.get('inner', []) if f.get('kind') == 'FieldDecl' and f.get('name')}
+        names = set()
+        for fname, f in tu.funcs.items():
+            if cfront.basename(f.get('_locfile') or f.get('_file')) != cfile:
+                continue
+            for d in cfront.walk(f):
+                if d.get('kind') in ('VarDecl', 'ParmVarDecl') and d.get('name'):
+                    names.add(d['name'])
+        names -= reserved
+        names -= CONVENTIONAL
+        names = {n_ for n_ in names if not n_.startswith('_') and len(n_) > 1 or n_ in ('i', 'j', 'k', 'v')}
+        p = os.path.join(root, 'src', cfile)
+        s = open(p).read()
+        # never touch preprocessor lines, string literals or member accesses
+        out = []
+        n = 0
+        for line in s.split('\n'):
+            if line.lstrip().startswith('#'):
+                out.append(line)
+                continue
+            parts = re.split(r'("(?:[^"\\]|\\.)*")', line)
+            for i_, part in enumerate(parts):
+                if i_ % 2 == 1:
+                    continue
+                for nm in names:
+                    part, k = re.subn(r'(?<![\w.])(?<!->)' + re.escape(nm) + r'(?!\w)', nm + '_q', part)
+                    n += k
+                parts[i_] = part
+            out.append(''.join(parts))
+        open(p, 'w').write('\n'.join(out))
+        return n
+    return fn
+
+
+for _c in ('gravity.c', 'collision.c', 'tools.c', 'particle.c', 'boundary.c', 'tree.c', 'integrator_whfast.c', 'integrator_mercurius.c', 'integrator_trace.c',
+           'integrator_saba.c', 'integrator_eos.c', 'integrator_janus.c', 'integrator_ias15.c', 'integrator_bs.c', 'integrator.c', 'rebound.c', 'output.c', 'input.c',
+           'binarydiff.c', 'simulationarchive.c', 'transformations.c', 'rotations.c', 'server.c', 'integrator_sei.c', 'integrator_leapfrog.c'):
+    VARIANTS.append(('locals:' + _c, _rename_all_locals(_c)))
